@@ -23,10 +23,6 @@ import vlib
 
 LEVEL = "model_checking"
 
-TREE_INVS = ("NotPropagationPreservesMeaning AtMostOneTopNot RenderIsWellFormed RenderDenotesTree "
-             "ParserEqualsReference LegacyEqualsSeqQL AcceptsExactlyTheGrammar")
-
-
 def _plan(quick, seed):
     """(label, cfg, tlc kwargs, driver args, emits cases)"""
     nw = max(2, vlib.NCPU // 2)
@@ -35,12 +31,14 @@ def _plan(quick, seed):
         ("pn2", "Parser_pn2.cfg", dict(workers=nw), [], True),
         ("rich2", "Parser_rich2q.cfg" if quick else "Parser_rich2.cfg", dict(workers=nw), [], True),
         ("gwalk", "Parser_gwalk6.cfg" if quick else "Parser_gwalk8.cfg", dict(workers=nw), [], True),
-        ("randtree", "Parser_rand.cfg", dict(simulate="num=%d" % (60 if quick else 600), depth=6, **sim), [], True),
+        # RandomElement draws the same sequence in every TLC worker: one worker
+        ("randtree", "Parser_rand.cfg", dict(simulate="num=%d" % (120 if quick else 1500), depth=6, workers=1), [], True),
         ("walkA", "Parser_walkA3q.cfg" if quick else "Parser_walkA4.cfg", dict(workers=nw), [], True),
         ("walkB", "Parser_walkB3q.cfg" if quick else "Parser_walkB4.cfg", dict(workers=nw), [], True),
         ("randwalkA", "Parser_randwalkA.cfg", dict(simulate="num=%d" % (40 if quick else 400), depth=17, **sim), [], True),
         ("randwalkB", "Parser_randwalkB.cfg", dict(simulate="num=%d" % (40 if quick else 400), depth=17, **sim), [], True),
         ("store", "Parser_walkS.cfg", dict(workers=2), ["-store"], True),
+        ("deep", "Parser_deepq.cfg" if quick else "Parser_deep.cfg", dict(workers=2), ["-hang", "300s", "-deepworkers"], True),
     ]
     if not quick:
         p.insert(1, ("pn3", "Parser_pn3.cfg", dict(workers=vlib.NCPU), [], False))
@@ -52,7 +50,7 @@ def _sig(label, m):
     if what == "outcome":
         got = str(m.get("got", ""))
         kind, _, msg = got.partition(": ")
-        msg = re.sub(r"[&{].*$", "", msg)[:60].strip()
+        msg = re.sub(r"[0-9]+", "N", re.sub(r"[&{].*$", "", msg))[:60].strip()
         return "totality:%s:map=%s:%s:%s" % (m.get("fn"), m.get("map"), kind, msg)
     if what == "crash":
         err = m.get("stderr", "") or ""
@@ -62,6 +60,24 @@ def _sig(label, m):
         pm = re.search(r"^(panic|fatal error): (.*)$", err, re.M)
         return "totality:crash:%s" % ((pm.group(2)[:60] if pm else "driver died"),)
     return "meaning:%s:%s" % (what, m.get("fn"))
+
+
+_SHOW = {"<SP>": " ", "<DQ>": '"', "<SQ>": "'", "<BQ>": "`", "<BS>": "\\", "<NL>": "\\n", "<BAD>": "\\xff", "<PUA>": "\\ue000"}
+
+
+def _show(pieces):
+    return "".join(_SHOW.get(x, x) for x in pieces)
+
+
+def _sample(label, c):
+    """a real case, shortened for the evidence file"""
+    if c.get("kind") == "sem":
+        return {"family": label, "kind": "sem", "query": _show(c["q"]), "parsers": c["langs"], "atoms": c["atoms"],
+                "required_truth_table": c["tt"]}
+    if c.get("kind") == "deep":
+        return {"family": label, "kind": "deep", "shape": c["shape"], "n": c["n"], "allowed": c["allowed"]}
+    return {"family": label, "kind": "tot", "prefix": _show(c["pre"]), "extended_by_up_to": c["k"],
+            "mappings_of_f": c["maps"], "allowed": c["allowed"]}
 
 
 def run(ctx):
@@ -102,7 +118,11 @@ def run(ctx):
         cf = files[label]
         if os.path.getsize(cf) == 0:
             raise vlib.Infra("TLC emitted no case for %s" % cfg)
-        mism, summ, _ = vlib.run_cases(ctx, drv, dargs + ["-workers", str(vlib.NCPU)], cf, label=label, timeout=3400)
+        if "-deepworkers" in dargs:     # every deep case grows a 1 GB stack in a child process: few at a time
+            dargs = [a for a in dargs if a != "-deepworkers"] + ["-workers", "4"]
+        else:
+            dargs = dargs + ["-workers", str(vlib.NCPU)]
+        mism, summ, _ = vlib.run_cases(ctx, drv, dargs, cf, label=label, timeout=3400)
         per[label] = dict(summ)
         for k in tot:
             tot[k] += summ[k]
@@ -123,18 +143,14 @@ def run(ctx):
             else:
                 f = found[sig]
                 f[1] += cnt
-                f[2].append(label)
+                if label not in f[2]:
+                    f[2].append(label)
                 if len(str(m.get("q", ""))) < len(str(f[0].get("q", ""))):
                     f[0] = m
         with open(cf) as fh:
-            for i, ln in enumerate(fh):
-                if i == 37 and len(ctx.cov["samples"]) < 6:
-                    c = json.loads(ln)
-                    c.pop("fields", None)
-                    c.pop("maps", None)
-                    ctx.cov["samples"].append(c)
-                if i > 37:
-                    break
+            head = [ln for _, ln in zip(range(38), fh)]
+        if head and len(ctx.cov["samples"]) < 10:
+            ctx.cov["samples"].append(_sample(label, json.loads(head[-1])))
     # one report per signature (entry point, mapping type, outcome), with the shortest input that shows it
     for sig in sorted(found):
         m, cnt, fams = found[sig]
@@ -161,14 +177,17 @@ def run(ctx):
         "gwalk = every well-formed lexeme sequence of length <= 6 (thorough 8) over {a:x, b:x, and, or, not, (, )}; randtree = seeded "
         "random trees of depth <= 3; each is parsed by ParseSeqQL and (where the legacy syntax can write it) ParseQuery, under the typed and "
         "(without text phrases) the nil mapping; evaluations = parser calls; non-trivial sem case = truth table not constant. "
-        "tot (walkA/walkB/randwalk*): every lexeme sequence of length <= 4 (thorough 6) over an 18-lexeme hostile alphabet A (quotes of 3 kinds, "
+        "tot (walkA/walkB/randwalk*): every lexeme sequence of length <= 4 (thorough: 6 over A, 5 over B) over an 18-lexeme hostile alphabet A (quotes of 3 kinds, "
         "backslash, #, newline, 0xFF, U+E000, *, parentheses, keywords) and B (ranges, in, pipes, commas), plus seeded random walks of "
         "length <= 16 with full fan-out at every step, x 11 mappings of field f x {ParseSeqQL, ParseQuery} + ParseAggregationFilter; "
-        "non-trivial tot input = accepted by at least one parser/mapping; input_strings = distinct strings built from the cases. "
-        "store: every sequence of length <= 3 over a 10-lexeme alphabet through GrpcV1.Search (SeqQL and legacy) of real stores, one per mapping type.")
+        "non-trivial tot input = accepted by at least one parser/mapping; input_strings = strings built from the cases (distinct within the exhaustive walks; random walks can repeat short prefixes). "
+        "store: every sequence of length <= 3 over a 10-lexeme alphabet through GrpcV1.Search (SeqQL and legacy) of real stores, one per mapping type. "
+        "deep: nesting-depth classes open^n f:x close^n for 5 shapes (parentheses, unclosed parentheses, not, not(, and-not chain) x n in {1000, 3*10^6} "
+        "(thorough also 10^5, 10^6), each call in a child process so that a fatal stack overflow is observed as an outcome.")
     ctx.assumptions += [
         "totality is decided over the enumerated lexeme alphabets (bounded length) and seeded random walks over them, not over arbitrary byte strings; no byte-level mutation fuzzing",
-        "a hang is a parser call that does not return within 5 s (observed calls take microseconds)",
+        "a hang is a parser call that does not return within 20 s (observed calls take microseconds; 300 s for the deep classes)",
+        "nesting depth is sampled at a few sizes (B4 shape classes) up to 3*10^6, a query of 3-6 MB, which the store's gRPC server (256 MB limit) accepts",
         "the truth table is evaluated on the returned parser.ASTNode with NAND read as children[1] AND NOT children[0] (as frac/processor/eval_tree.go builds node.NewNAnd); leaves are one-word literals",
         "the lexer/tokenizer of field values (quotes, escapes, wildcards inside terms) is not modelled: its meaning is covered only as 'same atoms come back' for the plain words x, y",
         "shape equality with the TLA+ transcription (PFilter/PExpr + PNot) is measured (ast_shape_equal_to_transcription) but a pure shape difference is reported as drift, not as a violation",
@@ -187,10 +206,27 @@ def _replay(ctx, drv):
     if str(m.get("fn", "")).startswith("GrpcV1"):
         args.append("-store")
     mism, summ, _ = vlib.run_cases(ctx, drv, args, [case], label="replay")
+    want = rec.get("signature")
+    seen = False
     for x in mism:
         if x.get("what") in ("info", "shape drift"):
             continue
-        ctx.violation(_sig("replay", x), x, what="replayed")
+        sig = _sig("replay", x)
+        vlib.log("  replayed: %s | %s" % (sig, x.get("got")))
+        if sig == want and not seen:
+            # reproduced: point at the replayed file instead of writing a copy of it
+            seen = True
+            known = [f for f in ctx.findings.get("findings", [])
+                     if f.get("property") == ctx.pid and re.search(f["match"], sig)]
+            if known:
+                print("KNOWN-FINDING: property=%s %s" % (ctx.pid, known[0]["what"]), flush=True)
+            else:
+                print("VIOLATION property=%s replay=%s" % (ctx.pid, ctx.replay), flush=True)
+                ctx._nviol += 1
+    if not seen:
+        vlib.log("  the recorded signature %s did not reproduce" % want)
     ctx.cov["traces_validated_against_impl"] = summ["cases"]
     ctx.cov["evaluations"] = summ["evals"]
+    ctx.cov["distinct_nontrivial"] = summ["nontrivial"]
+    ctx.cov["samples"] = [_sample("replay", case)]
     ctx.cov["rule"] = "replay of one recorded case"
